@@ -255,7 +255,12 @@ def d4(ctx, F):
     # the invalid edge sends Frame::Error{code: INVALID_TOPIC_NAME} and never Frame::Ok
     excl = bad_reach - hs.reachable(good_edge)
     errs = [(i, rv) for i, j, pl, rv, s in K.aggregates(hs, "selium_protocol::frame::ErrorPayload", excl)]
-    code_ok = any(rv["ops"][rv["fields"].index("code")].get("item") == "selium_protocol::error_codes::INVALID_TOPIC_NAME" for _, rv in errs)
+    def _item(op):
+        if op.get("item"):
+            return op["item"]
+        r = flow.root(hs, op) if op.get("k") in ("copy", "move") else None        # (the code passed to a shared `refuse` helper)
+        return r[1].get("item") if r and r[0] == "const" else None
+    code_ok = any(_item(rv["ops"][rv["fields"].index("code")]) == "selium_protocol::error_codes::INVALID_TOPIC_NAME" for _, rv in errs)
     ctx.check(code_ok, "C07.D4.error-code", "handle_stream:invalid-topic-wrong-code",
               "the refusal carries code INVALID_TOPIC_NAME", iv.span)
     frames = [rv["variant"] for i, j, pl, rv, s in K.aggregates(hs, "selium_protocol::frame::Frame", excl)]
